@@ -453,3 +453,287 @@ theorem settle_fine (p : PS) (h : Idle p.a) (hs : p.a.sinkRoom = none) (hr : (se
     List.nil_append, List.append_nil, List.append_assoc]
 
 end Penguin.Pair
+
+namespace Penguin.Pair
+open Penguin.Mux
+
+/-- The pair action that corresponds to an application-call stimulus. -/
+def actOf : Mux.Op → Option Act
+  | .open req host port => some (.open req host port)
+  | .accept => some .accept
+  | .write h d => some (.write h d)
+  | .read h n => some (.read h n)
+  | .shutdown h => some (.shutdown h)
+  | .dropStream h => some (.dropStream h)
+  | .sendDgram d => some (.sendDgram d)
+  | .recvDgram => some .recvDgram
+  | .cancelOpen req => some (.cancelOpen req)
+  | _ => none
+
+/-- An enabled action does exactly what the stimulus's application call does. -/
+theorem stepL_of_op (p q : PS) (op : Mux.Op) (a : Act) (ha : actOf op = some a) (hq : stepL p a = some q) :
+    q = { p with a := (opStep p.a op).1, ga := ghostOf p.a p.ga op (opStep p.a op).2.1 } ∧
+    wiresOf (opStep p.a op).2.2 = [] := by
+  cases op with
+  | «open» req host port =>
+    simp only [actOf, Option.some.injEq] at ha; subst ha
+    simp only [stepL] at hq
+    split at hq
+    · cases hq
+    · rename_i hany
+      split at hq
+      · cases hq
+      · cases hq
+        have ho : opStep p.a (.open req host port) = ((appOpen p.a req host port).1, .started, (appOpen p.a req host port).2) := by
+          simp only [opStep, hany, Bool.false_eq_true, if_false]
+        rw [ho]
+        exact ⟨rfl, openRound_no_wires _ _⟩
+  | accept => simp only [actOf, Option.some.injEq] at ha; subst ha; simp only [stepL] at hq; cases hq; exact ⟨rfl, rfl⟩
+  | write h d =>
+    simp only [actOf, Option.some.injEq] at ha; subst ha
+    simp only [stepL] at hq
+    split at hq
+    · cases hq
+    · cases hq
+      refine ⟨?_, rfl⟩
+      simp only [opStep]
+      congr 1
+      cases (appWrite p.a h d).2 <;> simp only [ghostOf] <;> (cases p.a.handles[h]? <;> rfl)
+  | read h n =>
+    simp only [actOf, Option.some.injEq] at ha; subst ha
+    simp only [stepL] at hq
+    split at hq
+    · cases hq
+    · cases hq
+      refine ⟨?_, rfl⟩
+      simp only [opStep]
+      congr 1
+      cases (appRead p.a h n).2 <;> simp only [ghostOf] <;> (cases p.a.handles[h]? <;> rfl)
+  | shutdown h =>
+    simp only [actOf, Option.some.injEq] at ha; subst ha
+    simp only [stepL] at hq
+    split at hq
+    · cases hq
+    · cases hq; exact ⟨rfl, rfl⟩
+  | dropStream h =>
+    simp only [actOf, Option.some.injEq] at ha; subst ha
+    simp only [stepL] at hq
+    split at hq
+    · cases hq
+    · cases hq; exact ⟨rfl, rfl⟩
+  | sendDgram d => simp only [actOf, Option.some.injEq] at ha; subst ha; simp only [stepL] at hq; cases hq; exact ⟨rfl, rfl⟩
+  | recvDgram => simp only [actOf, Option.some.injEq] at ha; subst ha; simp only [stepL] at hq; cases hq; exact ⟨rfl, rfl⟩
+  | cancelOpen req => simp only [actOf, Option.some.injEq] at ha; subst ha; simp only [stepL] at hq; cases hq; exact ⟨rfl, rfl⟩
+  | bindReq _ _ _ _ => simp [actOf] at ha
+  | bindNext => simp [actOf] at ha
+  | bindReply _ _ => simp [actOf] at ha
+  | bindDrop _ => simp [actOf] at ha
+  | dropMux => simp [actOf] at ha
+  | deliver _ => simp [actOf] at ha
+  | sinkRoom _ => simp [actOf] at ha
+
+/-- **Every application-call stimulus of the harness is a run of fine-grained actions.**  If the
+    call is enabled in the pair model, the endpoint is idle afterwards (nothing unread, running, no
+    notification for id 0), its sink takes everything and the scripts do not run out, then the state
+    after the stimulus (`stimL`, i.e. `Mux.applyOp`) is reached by the call followed by
+    `unpark`/`notif`…, `xmit`…, `runDone`, `runRetries`, `xmit`…. -/
+theorem stimL_fine (p : PS) (op : Mux.Op) (a : Act) (ha : actOf op = some a) (hen : (stepL p a).isSome)
+    (hidle : Idle (opStep p.a op).1) (hs : (opStep p.a op).1.sinkRoom = none)
+    (hr : (applyOp p.a op).1.rng ≠ []) :
+    ∃ acts, runL p (a :: acts) = some (stimL p op) := by
+  obtain ⟨q, hq⟩ := Option.isSome_iff_exists.mp hen
+  obtain ⟨hqe, hw⟩ := stepL_of_op p q op a ha hq
+  have happ : applyOp p.a op = ((settle (opStep p.a op).1).1, (opStep p.a op).2.1,
+      (opStep p.a op).2.2 ++ (settle (opStep p.a op).1).2) := rfl
+  have hqa : q.a = (opStep p.a op).1 := by rw [hqe]
+  obtain ⟨acts, hacts⟩ := settle_fine q (by rw [hqa]; exact hidle) (by rw [hqa]; exact hs)
+    (by rw [hqa]; rw [happ] at hr; exact hr)
+  refine ⟨acts, ?_⟩
+  simp only [runL, hq, Option.bind_some, hacts, Option.some.injEq]
+  unfold stimL
+  rw [happ]
+  simp only [wiresOf_append, hw, List.nil_append]
+  rw [hqe]
+
+end Penguin.Pair
+
+namespace Penguin.Mux
+
+theorem unpark_inbox (e : EP) (ib : List WsIn) (hm : e.muxAlive = true) :
+    unpark { e with inbox := ib } = { unpark e with inbox := ib } := by
+  unfold unpark
+  simp only [hm]
+  repeat' split
+  all_goals first | rfl | simp_all
+
+theorem set_inbox_self (e : EP) (ib : List WsIn) (h : e.inbox = ib) : { e with inbox := ib } = e := by
+  cases e; simp_all
+
+theorem closeFlow_droppedq_len (e : EP) (fid : Nat) (inh : Bool) : (closeFlow e fid inh).1.droppedq.length = e.droppedq.length := by
+  rw [closeFlow_droppedq]
+
+/-- Processing one frame queues at most one notification. -/
+theorem processFrame_droppedq_le (e : EP) (f : Frame) (ig : Bool) :
+    (processFrame e f ig).1.droppedq.length ≤ e.droppedq.length + 1 := by
+  cases f with
+  | connect fid rwnd port host =>
+    simp only [processFrame]
+    repeat' split
+    all_goals simp [EP.enqFrame, offerAccept]
+    all_goals try split
+    all_goals simp
+  | acknowledge fid n =>
+    simp only [processFrame]
+    repeat' split
+    all_goals simp [EP.enqFrame]
+  | finish fid =>
+    simp only [processFrame]
+    repeat' split
+    all_goals simp [EP.enqFrame]
+  | reset fid => simp only [processFrame]; rw [closeFlow_droppedq]; omega
+  | push fid d =>
+    simp only [processFrame]
+    repeat' split
+    all_goals first | (rw [closeFlow_droppedq]; omega) | simp [EP.enqFrame]
+  | bind fid bt port host =>
+    simp only [processFrame]
+    repeat' split
+    all_goals simp [EP.enqFrame, offerBind]
+    all_goals try split
+    all_goals simp
+  | datagram fid port host d =>
+    simp only [processFrame]
+    repeat' split
+    all_goals simp
+
+theorem processFrame_no_wires (e : EP) (f : Frame) (ig : Bool) : Penguin.Pair.wiresOf (processFrame e f ig).2.1 = [] := by
+  cases f with
+  | connect fid rwnd port host => simp only [processFrame]; repeat' split
+                                  all_goals rfl
+  | acknowledge fid n => simp only [processFrame]; repeat' split
+                         all_goals rfl
+  | finish fid =>
+    simp only [processFrame]
+    repeat' split
+    all_goals first | rfl | (simp only; split <;> rfl)
+  | reset fid => simp only [processFrame]; exact Penguin.Pair.closeFlow_no_wires _ _ _
+  | push fid d =>
+    simp only [processFrame]
+    repeat' split
+    all_goals first | rfl | exact Penguin.Pair.closeFlow_no_wires _ _ _
+  | bind fid bt port host => simp only [processFrame]; repeat' split
+                             all_goals rfl
+  | datagram fid port host d => simp only [processFrame]; repeat' split
+                                all_goals rfl
+
+end Penguin.Mux
+
+namespace Penguin.Pair
+open Penguin.Mux
+
+/-- **Every delivery stimulus of the harness is a run of fine-grained actions**: `unpark`, `recv`,
+    then the same tail as for an application call.  Conditions: the endpoint has nothing unread and is
+    running, the receive loop is not parked after `unpark`, the frame does not end the connection
+    (between two running endpoints it never does: `processFrame_continues`), no notification for id 0,
+    the sink takes everything, the scripts do not run out. -/
+theorem deliverL_fine (p q : PS) (f : Frame) (rest : List Msg) (hba : p.ba = .frame f :: rest)
+    (hd : deliverL p = some q)
+    (hidle : Idle p.a) (hsrc : p.a.srcEnded = false) (hpark : (unpark p.a).park = none)
+    (hcont : (processFrame (unpark p.a) f false).2.2 = none)
+    (hz : ¬ 0 ∈ (processFrame (unpark p.a) f false).1.droppedq)
+    (hs : p.a.sinkRoom = none) (hr : q.a.rng ≠ []) :
+    ∃ acts, runL p (.unpark :: .recv :: acts) = some q := by
+  have cu := Ctl.unpark p.a
+  have cp := Ctl.processFrame (unpark p.a) f false
+  -- the state after `unpark` and `recv`
+  let e2 := (processFrame (unpark p.a) f false).1
+  have hi2 : Idle e2 := (hidle.of_ctl (cu.trans cp) hz)
+  have hstepU : stepL p .unpark = some { p with a := unpark p.a } := rfl
+  have hstepR : stepL { p with a := unpark p.a } .recv = some { p with a := e2, ba := rest } := by
+    simp only [stepL, hpark, Option.isSome_none, Bool.false_eq_true, if_false, hba]
+    generalize hpf : processFrame (unpark p.a) f false = r at hcont
+    obtain ⟨e, evs, res⟩ := r
+    simp only at hcont
+    subst hcont
+    simp [e2, hpf]
+  -- what `applyOp` computes
+  have hop : opStep p.a (.deliver (.msg (.frame f))) = ({ p.a with inbox := [.msg (.frame f)] }, .unit, []) := by
+    simp [opStep, hsrc, hidle.inbox]
+  have hloop : settleLoop (2 * 1 + p.a.droppedq.length + 2) { p.a with inbox := [.msg (.frame f)] } [] =
+      settleLoop (2 * 1 + p.a.droppedq.length + 1) e2 ([] ++ (processFrame (unpark p.a) f false).2.1) := by
+    have hu : unpark { p.a with inbox := [.msg (.frame f)] } = { unpark p.a with inbox := [.msg (.frame f)] } :=
+      unpark_inbox _ _ hidle.muxAlive
+    have hrecv : recvOne { unpark p.a with inbox := [WsIn.msg (Msg.frame f)] } (.msg (.frame f)) [] =
+        processFrame (unpark p.a) f false := by
+      simp only [recvOne, processIn]
+      have : ({ unpark p.a with inbox := [WsIn.msg (Msg.frame f)] } : EP) = { unpark p.a with inbox := [WsIn.msg (Msg.frame f)] } := rfl
+      simp only [reduceCtorEq, or_self, if_false]
+      have heq : ({ ({ unpark p.a with inbox := [WsIn.msg (Msg.frame f)] } : EP) with inbox := [] } : EP) = unpark p.a := by
+        have : (unpark p.a).inbox = [] := by rw [cu.inbox]; exact hidle.inbox
+        exact set_inbox_self (unpark p.a) [] this
+      rw [heq]
+    rw [show 2 * 1 + p.a.droppedq.length + 2 = (2 * 1 + p.a.droppedq.length + 1) + 1 by omega]
+    have hd0 : ({ p.a with inbox := [WsIn.msg (Msg.frame f)] } : EP).dead = false := hidle.dead
+    have hg0 : ({ p.a with inbox := [WsIn.msg (Msg.frame f)] } : EP).draining = none := hidle.draining
+    have hc0 : ({ p.a with inbox := [WsIn.msg (Msg.frame f)] } : EP).closing = none := hidle.closing
+    have hp1 : ({ unpark p.a with inbox := [WsIn.msg (Msg.frame f)] } : EP).park = none := hpark
+    have hi1 : ({ unpark p.a with inbox := [WsIn.msg (Msg.frame f)] } : EP).inbox = [WsIn.msg (Msg.frame f)] := rfl
+    generalize ({ unpark p.a with inbox := [WsIn.msg (Msg.frame f)] } : EP) = e1 at hu hp1 hi1 hrecv
+    generalize ({ p.a with inbox := [WsIn.msg (Msg.frame f)] } : EP) = e0 at hu hd0 hg0 hc0 ⊢
+    rw [settleLoop]
+    simp only [hd0, Bool.false_eq_true, if_false, hg0, hc0, hu, hp1, hi1]
+    rw [hrecv, hcont]
+  have happ : applyOp p.a (.deliver (.msg (.frame f))) =
+      ((settleTail (settleLoop (2 * 1 + p.a.droppedq.length + 1) e2 ([] ++ (processFrame (unpark p.a) f false).2.1)).1
+                   (settleLoop (2 * 1 + p.a.droppedq.length + 1) e2 ([] ++ (processFrame (unpark p.a) f false).2.1)).2).1,
+       .unit,
+       [] ++ (settleTail (settleLoop (2 * 1 + p.a.droppedq.length + 1) e2 ([] ++ (processFrame (unpark p.a) f false).2.1)).1
+                   (settleLoop (2 * 1 + p.a.droppedq.length + 1) e2 ([] ++ (processFrame (unpark p.a) f false).2.1)).2).2) := by
+    simp only [applyOp, hop]
+    rw [settle_eq]
+    simp only [List.length_cons, List.length_nil]
+    rw [hloop]
+  -- the loop from `e2` on is the idle loop
+  have hfuel : ({ p with a := e2, ba := rest } : PS).a.droppedq.length < 2 * 1 + p.a.droppedq.length + 1 := by
+    have := processFrame_droppedq_le (unpark p.a) f false
+    rw [unpark_droppedq p.a hidle.muxAlive] at this
+    show (processFrame (unpark p.a) f false).1.droppedq.length < _
+    omega
+  obtain ⟨e3, evs3, h1, h2, h3, h4, h5, c3⟩ :=
+    settleLoop_idle _ { p with a := e2, ba := rest } ([] ++ (processFrame (unpark p.a) f false).2.1) hi2 hfuel
+  have hs3 : e3.sinkRoom = none := by
+    rw [c3.sinkRoom]; show e2.sinkRoom = none; rw [cp.sinkRoom, cu.sinkRoom]; exact hs
+  simp only at h1
+  rw [h1] at happ
+  rw [settleTail_running e3 _ h4.dead h4.draining hs3] at happ
+  -- `q` is what `deliverL` built from `applyOp`
+  simp only [deliverL, hba] at hd
+  rw [happ] at hd
+  simp only [Option.some.injEq] at hd
+  subst hd
+  simp only at hr
+  refine ⟨notifActs e2.droppedq.length ++ List.replicate e3.outq.length .xmit ++ [.runDone, .runRetries] ++
+      List.replicate (stage4 (stage3 { e3 with outq := [] }).1).1.outq.length .xmit, ?_⟩
+  simp only [runL, hstepU, Option.bind_some, hstepR]
+  rw [runL_append, runL_append, runL_append, h3]
+  simp only [Option.bind_some]
+  rw [runL_xmits e3.outq _ rfl]
+  simp only [Option.bind_some]
+  have hstepD : stepL { p with a := { e3 with outq := [] }, ba := rest, ab := p.ab ++ e3.outq } .runDone =
+      some { p with a := (stage3 { e3 with outq := [] }).1, ba := rest, ab := p.ab ++ e3.outq } := rfl
+  have hstepRR : stepL { p with a := (stage3 { e3 with outq := [] }).1, ba := rest, ab := p.ab ++ e3.outq } .runRetries =
+      some { p with a := (stage4 (stage3 { e3 with outq := [] }).1).1, ba := rest, ab := p.ab ++ e3.outq } := by
+    simp only [stepL]
+    have : ¬ (stage4 (stage3 { e3 with outq := [] }).1).1.rng.isEmpty = true := by
+      intro hh; apply hr; simpa using hh
+    show (if (stage4 (stage3 { e3 with outq := [] }).1).1.rng.isEmpty = true then none else some _) = _
+    rw [if_neg this]
+    rfl
+  simp only [runL, hstepD, Option.bind_some, hstepRR]
+  rw [runL_xmits _ _ rfl]
+  simp only [Option.some.injEq]
+  congr 1
+  simp only [wiresOf_append, wiresOf_map_wire, h2, processFrame_no_wires, runDone_no_wires, runRetries_no_wires, stage3, stage4,
+    wiresOf_nil, List.nil_append, List.append_nil, List.append_assoc]
+
+end Penguin.Pair
